@@ -91,12 +91,14 @@ def pattern_encoder_cannot_decode_declared_value(case, v):
     # graph level: a connection choice with at most one effective (not zero-degree) source or target connector
     spec = _spec(case)
 
+    exists = _reach(_succ(spec, with_choices=True), spec['start'])   # connectors below removed (non-start) roots never exist
+
     def n_eff(items):
         n = 0
         for it in items:
             if isinstance(it, dict):
-                n += 1
-            elif spec['nodes'][it].get('deg') != [0]:
+                n += 1 if any(m in exists for m in it['members']) else 0
+            elif spec['nodes'][it].get('deg') != [0] and it in exists:
                 n += 1
         return n
     return any(n_eff(cc['src']) <= 1 or n_eff(cc['tgt']) <= 1 for cc in spec.get('conns', []))
@@ -340,7 +342,7 @@ def influence_matrix_shared_option(case, v):
     if v['kind'] in ('decode_failed', 'row_decode_failed', 'redecode_failed'):
         return any(t in msg for t in ('Unexpected inactive choice', 'Des var node not found', 'Connection choice not does',
                                       'Infeasible graph specified', 'No more feasible architectures',
-                                      'Node not part of connection choice'))
+                                      'Node not part of connection choice', 'is not an option of choice node'))
     return True
 
 
